@@ -1,0 +1,159 @@
+//go:build verif
+// +build verif
+
+package linker
+
+// Export for the /verif correspondence kernel "metaimports" (build tag "verif" only). Add-only.
+//
+// ImportsDump reads, from a linker context kept by VerifMetaCaptureStart / VerifMetaCaptureTake, what the
+// chunk generators read when they assemble the "imports" / "exports" / "entryPoint" / "cssBundle" fields of
+// an output's metafile entry: chunk.crossChunkImports, crossChunkPrefixStmts, the import records of the files
+// of the chunk (after the linker rewrote them), the export aliases, hasCSSChunk / cssChunkIndex.
+
+import (
+	"sort"
+
+	"github.com/evanw/esbuild/internal/ast"
+	"github.com/evanw/esbuild/internal/config"
+	"github.com/evanw/esbuild/internal/graph"
+	"github.com/evanw/esbuild/internal/js_ast"
+	"github.com/evanw/esbuild/internal/runtime"
+)
+
+type VerifMIRecord struct {
+	Path        string
+	Kind        uint8 // ast.ImportKind
+	NotExternal bool  // ShouldNotBeExternalInMetafile
+	HasKey      bool  // ContainsUniqueKey
+	Internal    bool  // SourceIndex.IsValid()
+	File        int   // source index of the file the record belongs to (-1: made by the linker)
+}
+
+type VerifMICross struct {
+	Kind  uint8
+	Chunk int
+}
+
+type VerifMIChunk struct {
+	IsJS         bool
+	IsEntryPoint bool
+	SourceIndex  int  // chunk.sourceIndex (entry points only)
+	EntryIsCSS   bool // the file of chunk.sourceIndex has a CSS representation
+	UniqueKey    string
+	Cross        []VerifMICross // chunk.crossChunkImports
+	PrefixStmts  []int          // ImportRecordIndex of every SImport in crossChunkPrefixStmts (-1: another statement)
+	WrapCJS      bool           // entry file: Meta.Wrap == WrapCJS
+	Aliases      []string       // entry file: Meta.SortedAndFilteredExportAliases
+	ToOther      []string       // values of exportsToOtherChunks (sorted: it is a Go map)
+	HasCSS       bool
+	CSSChunk     int
+	Files        []int // source index of every compile result, in order (-1: CSS compile result without a source)
+	FileKeys     []string // per compile result: UniqueKeyForAdditionalFile when the file uses the "file" loader, else ""
+	Records      []VerifMIRecord
+}
+
+type VerifMIDump struct {
+	KeepESM bool     // OutputFormat.KeepESMImportExportSyntax()
+	Pretty  []string // per source index: PrettyPaths.Select(MetafilePathStyle)
+	Chunks  []VerifMIChunk
+}
+
+func verifMIRecord(r ast.ImportRecord, file int) VerifMIRecord {
+	return VerifMIRecord{
+		Path:        r.Path.Text,
+		Kind:        uint8(r.Kind),
+		NotExternal: r.Flags.Has(ast.ShouldNotBeExternalInMetafile),
+		HasKey:      r.Flags.Has(ast.ContainsUniqueKey),
+		Internal:    r.SourceIndex.IsValid(),
+		File:        file,
+	}
+}
+
+func (h *VerifMetaContext) ImportsDump() (d VerifMIDump) {
+	c := h.c
+	d.KeepESM = c.options.OutputFormat.KeepESMImportExportSyntax()
+	for i := range c.graph.Files {
+		d.Pretty = append(d.Pretty, c.graph.Files[i].InputFile.Source.PrettyPaths.Select(c.options.MetafilePathStyle))
+	}
+	for ci := range c.chunks {
+		chunk := &c.chunks[ci]
+		m := VerifMIChunk{IsEntryPoint: chunk.isEntryPoint, SourceIndex: int(chunk.sourceIndex), UniqueKey: chunk.uniqueKey}
+		for _, x := range chunk.crossChunkImports {
+			m.Cross = append(m.Cross, VerifMICross{Kind: uint8(x.importKind), Chunk: int(x.chunkIndex)})
+		}
+		if chunk.isEntryPoint {
+			_, m.EntryIsCSS = c.graph.Files[chunk.sourceIndex].InputFile.Repr.(*graph.CSSRepr)
+		}
+		seen := map[uint32]bool{}
+		switch repr := chunk.chunkRepr.(type) {
+		case *chunkReprJS:
+			m.IsJS = true
+			for _, s := range repr.crossChunkPrefixStmts {
+				if imp, ok := s.Data.(*js_ast.SImport); ok {
+					m.PrefixStmts = append(m.PrefixStmts, int(imp.ImportRecordIndex))
+				} else {
+					m.PrefixStmts = append(m.PrefixStmts, -1)
+				}
+			}
+			if chunk.isEntryPoint {
+				if fileRepr, ok := c.graph.Files[chunk.sourceIndex].InputFile.Repr.(*graph.JSRepr); ok {
+					m.WrapCJS = fileRepr.Meta.Wrap == graph.WrapCJS
+					m.Aliases = append([]string{}, fileRepr.Meta.SortedAndFilteredExportAliases...)
+				}
+			}
+			for _, alias := range repr.exportsToOtherChunks {
+				m.ToOther = append(m.ToOther, alias)
+			}
+			sort.Strings(m.ToOther)
+			m.HasCSS = repr.hasCSSChunk
+			m.CSSChunk = int(repr.cssChunkIndex)
+			for _, partRange := range repr.partsInChunkInOrder {
+				if partRange.sourceIndex == runtime.SourceIndex && c.options.OmitRuntimeForTests {
+					continue
+				}
+				m.Files = append(m.Files, int(partRange.sourceIndex))
+				if in := &c.graph.Files[partRange.sourceIndex].InputFile; in.Loader == config.LoaderFile {
+					m.FileKeys = append(m.FileKeys, in.UniqueKeyForAdditionalFile)
+				} else {
+					m.FileKeys = append(m.FileKeys, "")
+				}
+				if seen[partRange.sourceIndex] {
+					continue
+				}
+				seen[partRange.sourceIndex] = true
+				if fileRepr, ok := c.graph.Files[partRange.sourceIndex].InputFile.Repr.(*graph.JSRepr); ok {
+					for _, r := range fileRepr.AST.ImportRecords {
+						m.Records = append(m.Records, verifMIRecord(r, int(partRange.sourceIndex)))
+					}
+				}
+			}
+
+		case *chunkReprCSS:
+			for _, entry := range repr.importsInChunkInOrder {
+				for _, r := range entry.conditionImportRecords {
+					m.Records = append(m.Records, verifMIRecord(r, -1))
+				}
+				switch entry.kind {
+				case cssImportSourceIndex:
+					m.Files = append(m.Files, int(entry.sourceIndex))
+					if seen[entry.sourceIndex] {
+						continue
+					}
+					seen[entry.sourceIndex] = true
+					if fileRepr, ok := c.graph.Files[entry.sourceIndex].InputFile.Repr.(*graph.CSSRepr); ok {
+						for _, r := range fileRepr.AST.ImportRecords {
+							m.Records = append(m.Records, verifMIRecord(r, int(entry.sourceIndex)))
+						}
+					}
+				case cssImportExternalPath:
+					m.Files = append(m.Files, -1)
+					m.Records = append(m.Records, verifMIRecord(ast.ImportRecord{Kind: ast.ImportAt, Path: entry.externalPath}, -1))
+				default:
+					m.Files = append(m.Files, -1)
+				}
+			}
+		}
+		d.Chunks = append(d.Chunks, m)
+	}
+	return
+}
